@@ -232,11 +232,19 @@ def generate():
         return [n for n in walk(node) if n.get("kind") == "CXXMemberCallExpr" and kids(n)
                 and strip(kids(n)[0]).get("kind") == "MemberExpr" and strip(kids(n)[0]).get("name") in ("runInLoop", "queueInLoop")]
 
-    def handoff(fn, nm, which=0):
+    def handoff(fn, nm, which=0, unconditional=False):
         calls = loop_calls(body_of(fn))
         if len(calls) <= which:
             raise ExtractError("%s: no runInLoop/queueInLoop hand-off found" % nm)
         call = calls[which]
+        if unconditional:
+            # the model hands the request to the loop whatever the calling thread sees (`Conn.act`: `handOff c foreign ..`
+            # with no test in front): the body must be that one call and nothing else - a test of a member in the calling
+            # thread (a stale `reading_`) in front of it is not expressible, so it is not translated
+            st = [k for k in kids(body_of(fn)) if k.get("kind") != "NullStmt"]
+            if len(st) != 1 or strip(st[0]).get("id") != call.get("id"):
+                raise ExtractError("%s: the hand-off to the loop is not the only, unconditional statement of the function "
+                                   "(the model's %s() always hands over; the loop thread decides)" % (nm, nm))
         kind = strip(kids(call)[0])["name"]
         h = hold_of(call)
         out.append("/-- `%s`: hand-off through `%s`, functor holds %s -/\ndef %sDispatch : Dispatch := .%s\ndef %sHold : Hold := .%s\n"
@@ -366,8 +374,8 @@ def generate():
     bind_kind(sil, "writeCompleteCallback_", "wcBindSend", "`sendInLoop`: the write-complete functor")
     bind_kind(hw, "writeCompleteCallback_", "wcBindDrain", "`handleWrite`: the write-complete functor")
     bind_kind(sil, "highWaterMarkCallback_", "hwmBind", "`sendInLoop`: the high-water-mark functor")
-    handoff(the_function(docs, "startRead"), "startRead")
-    handoff(the_function(docs, "stopRead"), "stopRead")
+    handoff(the_function(docs, "startRead"), "startRead", unconditional=True)
+    handoff(the_function(docs, "stopRead"), "stopRead", unconditional=True)
 
     # A functor that "holds a weak reference" (above: judged at the bind site) behaves like one only if the trampoline
     # that runs it LOCKS the weak pointer, TESTS the result and only then calls - with the locked pointer.  The two
